@@ -157,13 +157,17 @@ func runOpDecision(c *core.Ctx) {
 		}, ints: map[string]string{"idx": "", "len(sets)": ""}, ref: func(a dtAtoms) bool { return a.I("idx") == a.I("len(sets)") }},
 		{fn: ".QuantifiedUniversal", key: "fails-on-counterexample", why: "\\A is FALSE as soon as one tuple falsifies the body", find: returnsBool(false),
 			ints: map[string]string{"idx": "", "len(sets)": ""}, bools: []string{"it.Done()", "helper(idx+1)"},
-			ref: func(a dtAtoms) bool { return a.I("idx") != a.I("len(sets)") && !a.B("it.Done()") && !a.B("helper(idx+1)") }},
+			ref: func(a dtAtoms) bool {
+				return a.I("idx") != a.I("len(sets)") && !a.B("it.Done()") && !a.B("helper(idx+1)")
+			}},
 		{fn: ".QuantifiedUniversal", key: "holds-otherwise", why: "... and TRUE when the bound set is exhausted", find: returnsBool(true),
 			ints: map[string]string{"idx": "", "len(sets)": ""}, bools: []string{"it.Done()", "helper(idx+1)"},
 			ref: func(a dtAtoms) bool { return a.I("idx") != a.I("len(sets)") && a.B("it.Done()") }},
 		{fn: ".QuantifiedExistential", key: "succeeds-on-witness", why: "\\E is TRUE as soon as one tuple satisfies the body", find: returnsBool(true),
 			ints: map[string]string{"idx": "", "len(sets)": ""}, bools: []string{"it.Done()", "helper(idx+1)"},
-			ref: func(a dtAtoms) bool { return a.I("idx") != a.I("len(sets)") && !a.B("it.Done()") && a.B("helper(idx+1)") }},
+			ref: func(a dtAtoms) bool {
+				return a.I("idx") != a.I("len(sets)") && !a.B("it.Done()") && a.B("helper(idx+1)")
+			}},
 		{fn: ".QuantifiedExistential", key: "fails-otherwise", why: "... and FALSE when the bound set is exhausted", find: returnsBool(false),
 			ints: map[string]string{"idx": "", "len(sets)": ""}, bools: []string{"it.Done()", "helper(idx+1)"},
 			ref: func(a dtAtoms) bool { return a.I("idx") != a.I("len(sets)") && a.B("it.Done()") }},
